@@ -88,6 +88,16 @@ def Job.thenFor (p : Nat) : Job → Bool
   | .thenable _ q _ _ => q == p
   | _ => false
 
+/-- Control state of one async function activation (asyncRunner + its generator, func.go:681-745). -/
+inductive RPhase | running | suspended | done | abandoned   -- abandoned: its queued resumption was discarded by an interrupt
+  deriving DecidableEq, Repr, Inhabited
+
+structure Runner where
+  phase : RPhase := .running
+  awaits : Nat := 0        -- awaits executed so far; the continuation stored by the n-th await is "continuation n"
+  resumes : Nat := 0       -- resumptions so far (onFulfilled / onRejected calls)
+  deriving Inhabited
+
 /-- Promise record (builtin_promise.go:56). `attached` is ghost: rids attached so far. -/
 structure PRec where
   state : PState := .pending
@@ -112,6 +122,7 @@ structure K where
   enq : List Job := []        -- ghost: jobs enqueued and not discarded by an interrupt, in order
   ran : List Job := []        -- ghost: jobs started, in order
   enqEver : List Job := []    -- ghost: every job ever enqueued, in order
+  runners : List Runner := [] -- control state of the async function activations (asyncRunner, func.go:681)
   deriving Inhabited
 
 def K.getP (k : K) (p : Nat) : PRec := k.proms.getD p {}
@@ -221,9 +232,9 @@ Runtime.NewPromise (:629-630): a new promise (id = old `proms.length`) with its 
 `latches.length`). -/
 def newCap (k : K) : K := createResolvingFunctions (newPromise k) k.proms.length
 
-/-- Start the next job of the batch (`for _, job := range jobs { job() }`, runtime.go:2875).  A thenable
+/-- Queue part of starting the oldest job (`for _, job := range jobs { job() }`, runtime.go:2875).  A thenable
 job begins with createResolvingFunctions (builtin_promise.go:177). -/
-def popJob (k : K) : K :=
+def popJobQ (k : K) : K :=
   match k.jobs with
   | [] => k
   | j :: rest =>
@@ -232,9 +243,72 @@ def popJob (k : K) : K :=
     | .reaction _ _ _ _ => k
     | .thenable _ p _ _ => createResolvingFunctions k p
 
-/-- leaveAbrupt (runtime.go:2884): the queue is discarded.  (The batch being iterated is
-abandoned with the unwinding Go stack.) -/
-def leaveAbrupt (k : K) : K := { k with jobs := [], enq := k.ran }
+def isAsyncFn : Fn → Bool
+  | .asyncFul _ => true
+  | .asyncRej _ => true
+  | _ => false
+
+/-- The async activation a reaction job resumes (its handler is asyncRunner.onFulfilled / onRejected), if any. -/
+def Reaction.runner? (r : Reaction) : Option Nat :=
+  match r.handler with
+  | some (.asyncFul a) => some a
+  | some (.asyncRej a) => some a
+  | _ => none
+
+def Job.runner? : Job → Option Nat
+  | .reaction _ _ r _ => r.runner?
+  | .thenable _ _ _ _ => none
+
+/-- asyncRunner.onFulfilled / onRejected is entered (func.go:688 / 699): the activation runs again. -/
+def resumeRunner (rs : List Runner) (j : Job) : List Runner :=
+  match j.runner? with
+  | none => rs
+  | some ar =>
+    match rs[ar]? with
+    | none => rs
+    | some r => rs.set ar { r with phase := .running, resumes := r.resumes + 1 }
+
+/-- Start the oldest job; if it is the resumption of an async activation, that activation is running again. -/
+def popJob (k : K) : K :=
+  match k.jobs with
+  | [] => k
+  | j :: _ => { popJobQ k with runners := resumeRunner k.runners j }
+
+def K.getR (k : K) (ar : Nat) : Runner := k.runners.getD ar { phase := .done }
+
+/-- asyncRunner.start (func.go:734): a new activation, running. -/
+def asyncStart (k : K) : K := { k with runners := k.runners ++ [{}] }
+
+/-- `await` in a running activation (asyncRunner.step, func.go:721-732) on the promise `p` that promiseResolve
+returned: PerformPromiseThen(p, onFulfilled, onRejected) without a capability; the activation is suspended. -/
+def awaitOp (k : K) (ar p : Nat) : K :=
+  if (k.getR ar).phase = .running ∧ ar < k.runners.length ∧ p < k.proms.length then
+    let k1 := addReactions k p none (some (.asyncFul ar)) (some (.asyncRej ar))
+    let r := k.getR ar
+    { k1 with runners := k1.runners.set ar { r with phase := .suspended, awaits := r.awaits + 1 } }
+  else k
+
+/-- The activation completes (func.go:712-718). -/
+def asyncDone (k : K) (ar : Nat) : K :=
+  if (k.getR ar).phase = .running ∧ ar < k.runners.length then
+    { k with runners := k.runners.set ar { k.getR ar with phase := .done } }
+  else k
+
+/-- The activations whose queued resumption is among the discarded jobs will never run again. -/
+def abandonRunners (rs : List Runner) : List Job → List Runner
+  | [] => rs
+  | j :: js =>
+    match j.runner? with
+    | none => abandonRunners rs js
+    | some ar =>
+      match rs[ar]? with
+      | none => abandonRunners rs js
+      | some r => abandonRunners (rs.set ar { r with phase := .abandoned }) js
+
+/-- leaveAbrupt (runtime.go:2884): the queue is discarded.  (The batch being iterated is abandoned with the
+unwinding Go stack.) -/
+def leaveAbrupt (k : K) : K :=
+  { k with jobs := [], enq := k.ran, runners := abandonRunners k.runners k.jobs }
 
 inductive KOp
   | newCap
@@ -243,15 +317,28 @@ inductive KOp
   | addReactions (p : Nat) (cap : Option Cap) (onF onR : Option Fn)
   | popJob
   | leaveAbrupt
+  | asyncStart
+  | await (ar p : Nat)
+  | asyncDone (ar : Nat)
   deriving Inhabited
+
+/-- asyncRunner.onFulfilled / onRejected are Go method values that exist only inside the reactions built by
+asyncRunner.step; they are not JavaScript values, so no `then` call can ever pass them. -/
+def noAsync (f : Option Fn) : Bool :=
+  match f with
+  | some fn => !isAsyncFn fn
+  | none => true
 
 def applyOp : KOp → K → K
   | .newCap, k => newCap k
   | .callResolve l v look, k => callResolve k l v look
   | .callReject l v, k => callReject k l v
-  | .addReactions p cap f g, k => addReactions k p cap f g
+  | .addReactions p cap f g, k => if noAsync f && noAsync g then addReactions k p cap f g else k
   | .popJob, k => popJob k
   | .leaveAbrupt, k => leaveAbrupt k
+  | .asyncStart, k => asyncStart k
+  | .await ar p, k => awaitOp k ar p
+  | .asyncDone ar, k => asyncDone k ar
 
 /-- Kernel states reachable from the initial state of a fresh Runtime by any op sequence. -/
 inductive Reach : K → Prop
@@ -274,6 +361,9 @@ inductive BOp
   | callResolve (l : Nat) (v : Val) (look : ThenLook)
   | callReject (l : Nat) (v : Val)
   | addReactions (p : Nat) (cap : Option Cap) (onF onR : Option Fn)
+  | asyncStart
+  | await (ar p : Nat)
+  | asyncDone (ar : Nat)
   deriving Inhabited
 
 def BOp.toK : BOp → KOp
@@ -281,6 +371,9 @@ def BOp.toK : BOp → KOp
   | .callResolve l v look => .callResolve l v look
   | .callReject l v => .callReject l v
   | .addReactions p cap f g => .addReactions p cap f g
+  | .asyncStart => .asyncStart
+  | .await ar p => .await ar p
+  | .asyncDone ar => .asyncDone ar
 
 /-- `k` is reachable from `k0` by body ops only. -/
 inductive BodyReach (k0 : K) : K → Prop
